@@ -6,6 +6,28 @@ pub mod common;
 #[cfg(kani)]
 pub mod c05;
 #[cfg(kani)]
+pub mod c04;
+#[cfg(kani)]
+pub mod c06;
+#[cfg(kani)]
+pub mod c07;
+#[cfg(kani)]
+pub mod c08;
+#[cfg(kani)]
+pub mod c09;
+#[cfg(kani)]
+pub mod c10;
+#[cfg(kani)]
+pub mod c14;
+#[cfg(all(kani, verif_c17))]
+pub mod c17;
+#[cfg(kani)]
+pub mod c18;
+#[cfg(kani)]
+pub mod c20;
+#[cfg(kani)]
 pub mod oracles;
+#[cfg(kani)]
+pub mod exp;
 #[cfg(all(kani, test))]
 mod replay;
